@@ -42,14 +42,18 @@ CONSTANTS Pool,        \* entry points used by the public calls
           MaxLen,      \* history length
           EmitHist
 
-Own == {"plain", "caller", "main0", "bad_type", "calls_bad", "ct_good", "ct_bad", "closure", "first",
+Own == {"plain", "caller", "main0", "bad_type", "calls_bad", "ct_good", "ct_bad", "ct_expr", "closure", "first",
         "use_generic", "mono", "use_mono", "Pt", "Pt.norm1", "Pt.__new__", "use_struct",
         "ov_int", "ov_float", "over", "use_over", "loops", "n"}
 ASSUME Pool \subseteq Own /\ EntryOps \subseteq Pool
 
 Types    == {"Pt"}                      \* go to types_to_check_worklist
 Comptime == {"ct_good", "ct_bad"}       \* traced, body not examined by check()
-FailsCheck == {"bad_type"}              \* GuppyError "Type mismatch" while checking the body
+\* definitions whose body check raises a GuppyError, with the diagnostic's title.  ct_expr evaluates
+\* `comptime(plain(1))`: calling a Guppy function from Python outside tracing is an error, whatever
+\* happened earlier in the session (no reference to `plain` is resolved by the engine)
+FailTitle == [bad_type |-> "Type mismatch", ct_expr |-> "Python error"]
+FailsCheck == DOMAIN FailTitle
 FailsTrace == {"ct_bad"}                \* IndexError raised by the Python body during tracing
 NoArgs == {"main0"}
 
@@ -76,11 +80,10 @@ VARIABLES epoch,        \* number of Resets so far
           wl, twl,      \* to_check_worklist / types_to_check_worklist (LIFO: last = next)
           store,        \* generated struct methods registered so far         DEF_STORE growth
           lowered,      \* [Own -> times the checked artefact was lowered]    in-place mutation of CheckedCFGs
-          tracingLeak,  \* tracing state left set by a failed trace           tracing/state.py
           staleRead,    \* ghost: some lowering read an artefact of another epoch
           pc,           \* control state of the running public call
           hist          \* completed public calls with expected observations
-vars == <<epoch, parsedAt, checkedAt, compiled, wl, twl, store, lowered, tracingLeak, staleRead, pc, hist>>
+vars == <<epoch, parsedAt, checkedAt, compiled, wl, twl, store, lowered, staleRead, pc, hist>>
 
 Idle == [phase |-> "idle", op |-> "", d |-> "", cur |-> "", work |-> <<>>, done |-> <<>>, reads |-> {}]
 Zero == [x \in Own |-> 0]
@@ -88,7 +91,7 @@ Zero == [x \in Own |-> 0]
 Init ==
     /\ epoch = 0 /\ parsedAt = Zero /\ checkedAt = Zero /\ compiled = <<>>
     /\ wl = <<>> /\ twl = <<>> /\ store = 0 /\ lowered = Zero
-    /\ tracingLeak = FALSE /\ staleRead = FALSE /\ pc = Idle /\ hist = <<>>
+    /\ staleRead = FALSE /\ pc = Idle /\ hist = <<>>
 
 \* ---- get_parsed over a sequence of names: parse the unparsed ones (their signature
 \* ---- references first), store them, push them on the matching worklist ----------------
@@ -117,7 +120,7 @@ Start(op, d) ==
     /\ parsedAt' = Zero /\ checkedAt' = Zero /\ compiled' = <<>> /\ wl' = <<>> /\ twl' = <<>>
     /\ lowered' = Zero
     /\ pc' = [Idle EXCEPT !.phase = "preparse", !.op = op, !.d = d]
-    /\ UNCHANGED <<store, tracingLeak, staleRead, hist>>
+    /\ UNCHANGED <<store, staleRead, hist>>
 
 PreParse ==
     /\ pc.phase = "preparse"
@@ -125,7 +128,7 @@ PreParse ==
        /\ parsedAt' = s.p /\ twl' = s.t
        /\ wl' = <<pc.d>>                      \* assignment overwrites what the parse queued
     /\ pc' = [pc EXCEPT !.phase = "loop"]
-    /\ UNCHANGED <<epoch, checkedAt, compiled, store, lowered, tracingLeak, staleRead, hist>>
+    /\ UNCHANGED <<epoch, checkedAt, compiled, store, lowered, staleRead, hist>>
 
 LoopPop ==
     /\ pc.phase = "loop" /\ (twl # <<>> \/ wl # <<>>)
@@ -133,7 +136,7 @@ LoopPop ==
                           /\ pc' = [pc EXCEPT !.phase = "parse", !.cur = Last(twl)]
                      ELSE /\ wl' = Front(wl) /\ twl' = twl
                           /\ pc' = [pc EXCEPT !.phase = "parse", !.cur = Last(wl)]
-    /\ UNCHANGED <<epoch, parsedAt, checkedAt, compiled, store, lowered, tracingLeak, staleRead, hist>>
+    /\ UNCHANGED <<epoch, parsedAt, checkedAt, compiled, store, lowered, staleRead, hist>>
 
 \* get_checked(cur), first half: get_parsed
 ParseDef ==
@@ -141,7 +144,7 @@ ParseDef ==
     /\ IF checkedAt[pc.cur] # 0
        THEN pc' = [pc EXCEPT !.phase = "loop"] /\ UNCHANGED <<parsedAt, wl, twl>>
        ELSE SetSt(GetParsed(St, <<pc.cur>>)) /\ pc' = [pc EXCEPT !.phase = "checkdef"]
-    /\ UNCHANGED <<epoch, checkedAt, compiled, store, lowered, tracingLeak, staleRead, hist>>
+    /\ UNCHANGED <<epoch, checkedAt, compiled, store, lowered, staleRead, hist>>
 
 Projection(outcome, comp) ==
     [op |-> pc.op, d |-> pc.d, outcome |-> outcome,
@@ -158,16 +161,16 @@ CheckDef ==
        /\ SetSt(s)
        /\ IF x \in FailsCheck
           THEN /\ UNCHANGED <<checkedAt, store>>
-               /\ Finish("rejected:Type mismatch", <<>>)
+               /\ Finish("rejected:" \o FailTitle[x], <<>>)
           ELSE /\ checkedAt' = [checkedAt EXCEPT ![x] = epoch]
                /\ store' = IF x = "Pt" THEN store + 1 ELSE store
                /\ pc' = [pc EXCEPT !.phase = "loop"] /\ hist' = hist
-    /\ UNCHANGED <<epoch, compiled, lowered, tracingLeak, staleRead>>
+    /\ UNCHANGED <<epoch, compiled, lowered, staleRead>>
 
 \* both worklists drained
 LoopDone ==
     /\ pc.phase = "loop" /\ twl = <<>> /\ wl = <<>>
-    /\ UNCHANGED <<epoch, parsedAt, checkedAt, compiled, wl, twl, store, lowered, tracingLeak, staleRead>>
+    /\ UNCHANGED <<epoch, parsedAt, checkedAt, compiled, wl, twl, store, lowered, staleRead>>
     /\ IF pc.op = "check"
        THEN Finish("ok", <<>>)
        ELSE /\ pc' = [pc EXCEPT !.phase = "lower", !.work = << <<pc.d, 0>> >>, !.done = << <<pc.d, 0>> >>,
@@ -192,16 +195,14 @@ CompileDef ==
        /\ staleRead' = (staleRead \/ checkedAt[x] # epoch)
        /\ lowered' = [lowered EXCEPT ![x] = @ + 1]
        /\ IF x \in FailsTrace
-          THEN /\ tracingLeak' = TRUE
-               /\ Finish("raised:IndexError", <<>>)
-          ELSE /\ tracingLeak' = tracingLeak
-               /\ pc' = [pc EXCEPT !.work = Front(pc.work) \o fresh, !.done = pc.done \o fresh,
+          THEN Finish("raised:IndexError", <<>>)
+          ELSE /\ pc' = [pc EXCEPT !.work = Front(pc.work) \o fresh, !.done = pc.done \o fresh,
                                    !.reads = pc.reads \cup {rd}]
                /\ hist' = hist
 
 CompileDone ==
     /\ pc.phase = "lower" /\ pc.work = <<>>
-    /\ UNCHANGED <<epoch, parsedAt, checkedAt, wl, twl, store, lowered, tracingLeak, staleRead>>
+    /\ UNCHANGED <<epoch, parsedAt, checkedAt, wl, twl, store, lowered, staleRead>>
     /\ compiled' = [i \in 1..Len(pc.done) |-> pc.done[i][1]]
     /\ Finish(IF pc.op = "entry" /\ pc.d \notin NoArgs
               THEN "rejected:Entrypoint function has arguments" ELSE "ok", compiled')
